@@ -136,6 +136,20 @@ def one(ctx, y, yh, x, family):
         tol = 1e-9 * (abs(float(y[0])) + abs(float(y[-1])) + abs(m * x[0]) + abs(m * x[-1]) + 1e-300)
         if abs(yl[0] - y[0]) > tol or abs(yl[-1] - y[-1]) > tol:
             ctx.fail('predicate', 'endpoint-fit-passes-through-first-and-last', 'linear_fit.linear_fit', case, dict(line_ends=[float(yl[0]), float(yl[-1])]))
+        # the same end-point fit with the ROLES SWAPPED (x as a function of y, as linear_hv_residuals / the vertical transform use it):
+        # the abscissa is then unsorted or descending, and the line must still pass through the first and the last point
+        if float(y[0]) != float(y[-1]):
+            bs, ms = lf.linear_fit(y, x)
+            qbs, qms = [F(t) for t in d.call('metric', ['fit', ys, core.rats(x)])]
+            ctx.corr_checked += 1
+            mag = abs(qbs) + abs(qms) * (abs(F(float(y[0]))) + abs(F(float(y[-1])))) + abs(F(float(x[0]))) + abs(F(float(x[-1]))) + F(1, 10 ** 300)
+            if not (close(bs, qbs, mag) and close(ms, qms, abs(qms) + F(1, 10 ** 300))):
+                ctx.fail('predicate', 'endpoint-fit-equals-its-definition(descending / unsorted abscissa)', 'linear_fit.linear_fit', dict(case, swapped=True), dict(impl=[float(bs), float(ms)], model=[float(qbs), float(qms)]))
+            else:
+                e0, e1 = abs(bs + ms * y[0] - x[0]), abs(bs + ms * y[-1] - x[-1])
+                tol2 = 1e-9 * float(mag)
+                if e0 > tol2 or e1 > tol2:
+                    ctx.fail('predicate', 'endpoint-fit-passes-through-first-and-last(descending / unsorted abscissa)', 'linear_fit.linear_fit', dict(case, swapped=True), dict(miss=[float(e0), float(e1)]))
         pts = np.column_stack([x, y])
         # the wrappers with the curve's own end-point line AND with a line that does not fit it (end-point line of y_hat):
         # on a plateau the first has rss == 0, the second exercises the tss == 0 branch with rss != 0
